@@ -173,6 +173,10 @@ def record_writes(prog):
                 if len(names) == len(v.args):
                     for nm, a in zip(names, v.args):
                         out.setdefault((v.extra['path'], nm), []).append((fn, a))
+            elif v.kind == 'agg' and v.extra.get('akind') == 'tuple' and v.ty and v.ty.startswith('('):
+                # tuples kept in memory (frames of an explicit stack): keyed by their type
+                for i, a in enumerate(v.args):
+                    out.setdefault(('tuple' + v.ty, str(i)), []).append((fn, a))
         for st in b.stores:
             if st.owner and st.fields():
                 out.setdefault((st.owner, st.fields()[-1]), []).append((fn, st.value))
@@ -186,7 +190,7 @@ def record_field_origins(prog, fn, v, _seen, depth):
     owner = v.extra.get('last_owner')
     if not owner or owner in prog.node_adts or owner in prog.tree_adts or owner in prog.pool_adts or v.ty != 'u32':
         return None
-    if owner not in prog.adts or depth > 4:
+    if (owner not in prog.adts and not owner.startswith('tuple(')) or depth > 4:
         return None
     if prog.self_field(v) is not None or prog.node_field(v) is not None:
         return None
